@@ -207,6 +207,45 @@ def rule_hook_shape(check):
     check.expect(ok, R, R + "/bare-call", hir.loc(gp.rec), "no assignations: the bare hook call", "get_dd_paren_expr returns a bare call under other conditions")
 
 
+def rule_call_emission(check):
+    """the behaviour-relevant half of CALL-SIGNATURE (registered under C01/C02): what the emitted
+    `.call/.apply` is invoked on, with which receiver, which arguments and under which name"""
+    sub = _Only(check, "CALL-SIGNATURE", ("/this-arg", "/callee-object", "/member-obj", "/all-args-in-order", "/call-or-apply/", "/expand-arrays", "/FLOOR/call_or_apply"))
+    rule_call_signature(sub)
+
+
+class _Only:
+    def __init__(self, check, rule, suffixes):
+        self._c, self._rule, self._suf = check, rule, suffixes
+        self.prog = check.prog
+
+    def _keep(self, rule, key):
+        return rule == self._rule and any(x in key for x in self._suf)
+
+    def ok(self, rule, key, *a, **k):
+        if self._keep(rule, key):
+            self._c.ok("CALL-EMISSION", key.replace("CALL-SIGNATURE", "CALL-EMISSION"), *a, **k)
+
+    def bad(self, rule, key, *a, **k):
+        if self._keep(rule, key):
+            self._c.bad("CALL-EMISSION", key.replace("CALL-SIGNATURE", "CALL-EMISSION"), *a, **k)
+
+    def expect(self, cond, rule, key, *a, **k):
+        if self._keep(rule, key):
+            return self._c.expect(cond, "CALL-EMISSION", key.replace("CALL-SIGNATURE", "CALL-EMISSION"), *a, **k)
+        return cond
+
+    def floor(self, rule, what, *a, **k):
+        if self._keep(rule, "/FLOOR/" + what):
+            self._c.floor("CALL-EMISSION", what, *a, **k)
+
+    def rule(self, rid, text):
+        self._c.rule("CALL-EMISSION", "the emitted `tmp.call/apply(receiver, args..)` performs the original call: invoked on the callee temporary, with the reported receiver inserted as this-argument, all arguments in order, under the original `.call`/`.apply` name with array expansion tied to `.apply`")
+
+    def note(self, s_):
+        pass
+
+
 def rule_call_signature(check):
     R = "CALL-SIGNATURE"
     check.rule(R, "method hooks receive (result, function actually invoked, receiver, arguments..): `arguments` is filled in the order callee, receiver, call arguments; the emitted `.call/.apply` is invoked on the very temporary that was pushed as callee with the very receiver that was pushed")
@@ -291,6 +330,56 @@ def rule_call_signature(check):
         init = hir.peel(pn[0]["origin"][1])
         dflt = hir.is_call(init) and (hir.callee_name(init) or init.get("method")) == "unwrap_or" and hir.lit_value(hir.call_args(init)[1]) == "call"
     check.expect(ok and dflt, R, R + "/expand-arrays", hir.loc(g.rec), "array arguments are expanded iff the call goes through .apply (default .call)", "array expansion is not tied to `.apply` (default `.call`): the hook's argument list does not match the call")
+    # `.call` vs `.apply` of the original call is carried to the emitted call: a function that has a
+    # `call_or_apply` parameter forwards it, and on the prototype-only path (functions reachable only
+    # from replace_prototype_call_or_apply) the value handed on is the original property name
+    def cop_index(fn_):
+        for i, p_ in enumerate(fn_.rec.get("params", [])):
+            b_ = hir.pat_bindings(p_["pat"])
+            if b_ and b_[0]["name"] == "call_or_apply":
+                return i
+        return None
+
+    proto = prog.fn_opt("call_expr_transform::replace_prototype_call_or_apply")
+    proto_only = set()
+    if proto is not None:
+        changed = True
+        while changed:
+            changed = False
+            for fn_ in prog.user_fns:
+                if fn_.def_path in proto_only or fn_ is proto or "call_expr_transform" not in fn_.def_path:
+                    continue
+                sites_ = [c_ for c_, n_ in prog.sites_calling(fn_) if hir.is_call(n_)]
+                if sites_ and all(c_ is proto or c_.def_path in proto_only for c_ in sites_):
+                    proto_only.add(fn_.def_path)
+                    changed = True
+    n_cop = 0
+    for fn_ in prog.user_fns:
+        if "call_expr_transform" not in fn_.def_path:
+            continue
+        own = cop_index(fn_)
+        for n_ in fn_.nodes():
+            if not hir.is_call(n_):
+                continue
+            tgt = prog.resolve_local(n_)
+            if tgt is None:
+                continue
+            ti = cop_index(tgt)
+            if ti is None or ti >= len(hir.call_args(n_)):
+                continue
+            n_cop += 1
+            os_ = pv.origins(fn_, hir.call_args(n_)[ti])
+            key_ = "%s/call-or-apply/%s->%s" % (R, fn_.name, tgt.name)
+            if own is not None:
+                ok_ = bool(os_) and all(r[0] == "param" and r[1] == fn_.def_path and r[2] == own for r, p_ in os_)
+                check.expect(ok_, R, key_, hir.loc(n_), "%s forwards its call_or_apply" % fn_.name, "%s does not forward the original `.call`/`.apply` name to %s (%s)" % (fn_.name, tgt.name, sorted(origin_str(o) for o in os_)))
+            elif fn_ is proto or fn_.def_path in proto_only:
+                ok_ = bool(os_) and all(p_ and p_[-1] == "sym" for r, p_ in os_)
+                check.expect(ok_, R, key_, hir.loc(n_), "prototype path passes the original property name", "on the `.call`/`.apply` path %s passes %s instead of the original property name: `.apply` is emitted as `.call`" % (fn_.name, sorted(origin_str(o) for o in os_)))
+            else:
+                none_ = all(r[0] == "ctor" and r[1].split("::")[-1] == "None" for r, p_ in os_)
+                check.expect(none_, R, key_, hir.loc(n_), "plain path: default `.call` with the receiver inserted", "%s passes %s as call/apply name" % (fn_.name, sorted(origin_str(o) for o in os_)))
+    check.floor(R, "call_or_apply hand-overs", n_cop, 4)
     # bare calls: [fn ident, undefined] then the arguments
     h = prog.fn("call_expr_transform::replace_call_expr_if_csi_method_without_callee")
     al = [lid for lid, b in h.bindings().items() if b["name"] == "arguments" and b["origin"][0] == "let"]
